@@ -357,7 +357,6 @@ func copyOfParam(v ssa.Value, param *ssa.Parameter) bool {
 	return false
 }
 
-
 // behindMissOfParamKey: block b is reached only through the 'absent' edge of a comma-ok lookup, in a map,
 // under a key that is a parameter of fn (or a field of one).
 func behindMissOfParamKey(fn *ssa.Function, b *ssa.BasicBlock) bool {
